@@ -4,6 +4,7 @@ package c14
 import (
 	"fmt"
 	"math/rand/v2"
+	"slices"
 	"strings"
 	"sync"
 
@@ -36,13 +37,15 @@ type action struct {
 }
 
 type world struct {
-	ms      *vmesh.Mesh
-	a, b    int // node indices of the two endpoints
-	dupped  map[string]bool
-	retries [2]int
-	trace   []string
-	names   map[string]string // frame key -> message name
-	nReq    [2]int
+	ms          *vmesh.Mesh
+	a, b        int // node indices of the two endpoints
+	dupped      map[string]bool
+	retries     [2]int
+	trace       []string
+	names       map[string]string // frame key -> message name
+	deliverOnly bool
+	lateInits   []int // sides that have yet to start their setup
+	nReq        [2]int
 	// cleanLeft: how many cleaner ticks (the once-a-minute housekeeping of the hello handler) may still be
 	// injected per side; 0 in the exhaustive spaces
 	cleanLeft [2]int
@@ -95,7 +98,11 @@ func (w *world) name(p *vmesh.Packet) string {
 func (w *world) actions(allowRetry bool) []action {
 	var acts []action
 	for i, p := range w.ms.InFlight {
-		acts = append(acts, action{"deliver", i}, action{"drop", i})
+		acts = append(acts, action{"deliver", i})
+		if w.deliverOnly {
+			continue
+		}
+		acts = append(acts, action{"drop", i})
 		if !w.dupped[vmesh.Key(p.Data)] {
 			acts = append(acts, action{"dup", i})
 		}
@@ -105,6 +112,13 @@ func (w *world) actions(allowRetry bool) []action {
 			if w.retries[s] > 0 && !w.setUp(s) {
 				acts = append(acts, action{"retry", s})
 			}
+		}
+	}
+	for _, s := range w.lateInits {
+		// like a retry, a late start is only taken by a side that does not consider encryption established at
+		// that moment: the real trigger (router/tun.go) starts a setup only for a peer without keys
+		if !w.setUp(s) {
+			acts = append(acts, action{"init", s})
 		}
 	}
 	for s := 0; s < 2; s++ {
@@ -139,6 +153,12 @@ func (w *world) apply(act action) error {
 		n := w.node(act.idx)
 		if err := n.Inst.RouterV.Manager().Do("verif hello clean", func(wc *mgr.WorkerCtx) error { return n.Inst.RouterV.HelloPing.Clean(wc) }); err != nil {
 			return err
+		}
+	case "init":
+		w.lateInits = slices.DeleteFunc(w.lateInits, func(x int) bool { return x == act.idx })
+		w.trace = append(w.trace, "init "+sideName(act.idx))
+		if err := w.initiate(act.idx); err != nil {
+			w.trace = append(w.trace, "(refused: "+err.Error()+")")
 		}
 	case "errping":
 		w.errLeft[act.idx]--
@@ -193,6 +213,12 @@ type setup struct {
 	cleans int
 	// errs: "no encryption keys" error pings each side may send while messages are in flight
 	errs int
+	// deliverOnly: no message is lost or duplicated (the order of deliveries is the only choice)
+	deliverOnly bool
+	// lateInit: only the first initiator starts at once; the second one starts its setup at a point the schedule
+	// chooses (signed frames are filtered by per-sender timestamps, so what a router signed before its request
+	// and what it signed after it are different schedules)
+	lateInit bool
 }
 
 func buildWorld(r *rand.Rand, s setup, retries int) (*world, error) {
@@ -226,6 +252,7 @@ func buildWorld(r *rand.Rand, s setup, retries int) (*world, error) {
 	w.retries = [2]int{retries, retries}
 	w.cleanLeft = [2]int{s.cleans, s.cleans}
 	w.errLeft = [2]int{s.errs, s.errs}
+	w.deliverOnly = s.deliverOnly
 	if s.prior > 0 {
 		if err := w.initiate(0); err != nil {
 			return nil, fmt.Errorf("prior setup: %w", err)
@@ -305,7 +332,17 @@ func runSchedule(res *core.Result, r *rand.Rand, s setup, initSet int, retries i
 	if s.prior > 0 {
 		desc += fmt.Sprintf(" prior-setup-and-traffic-then-%s-lost-its-keys", sideName(s.prior-1))
 	}
-	for _, side := range initiatorSets[initSet] {
+	if s.lateInit {
+		desc += " second-initiator-starts-later"
+	}
+	if s.errs > 0 {
+		desc += " with-no-keys-error-pings"
+	}
+	for k, side := range initiatorSets[initSet] {
+		if s.lateInit && k > 0 {
+			w.lateInits = append(w.lateInits, side)
+			continue
+		}
 		if err := w.initiate(side); err != nil {
 			if s.prior > 0 && side != s.prior-1 {
 				continue // the side that still has keys may refuse to start another setup
@@ -360,6 +397,7 @@ func runSchedule(res *core.Result, r *rand.Rand, s setup, initSet int, retries i
 	}
 	schedule := strings.Join(w.trace, "; ")
 	sig, msg := w.verdict()
+
 	if sig != "" {
 		// schedule pattern for the known-findings matcher: which requests were handled before the first response
 		res.Violate(sig, fmt.Sprintf("%s: schedule [%s]: %s", desc, schedule, msg), map[string]any{"setup": desc, "schedule": w.trace, "choices": choices, "case_id": desc + "|" + schedule})
@@ -464,6 +502,7 @@ func run(c *core.Ctx) {
 	res := c.Res
 	rid := core.RNG("c14/ids")
 	ids := []*m.Address{env.NewIdentity(rid, nil), env.NewIdentity(rid, nil), env.NewIdentity(rid, nil)}
+
 	type job struct {
 		s       setup
 		initSet int
@@ -500,12 +539,23 @@ func run(c *core.Ctx) {
 		s := setup{relay: false, swapped: swapped, ids: ids, cleans: 1}
 		jobs = append(jobs, job{s, 2, 0, 0, c.Q(400, 8000)}, job{s, 3, 0, 0, c.Q(400, 8000)})
 	}
+	// the second initiator starts at a point of the schedule (no other disturbance): budgeted search + sampling
+	for _, swapped := range []bool{false, true} {
+		s := setup{relay: false, swapped: swapped, ids: ids, lateInit: true}
+		jobs = append(jobs, job{s, 2, 0, c.Q(1500, 20000), c.Q(300, 6000)}, job{s, 3, 0, c.Q(1500, 20000), c.Q(300, 6000)})
+	}
 	// with "no encryption keys" error pings crossing the setup messages (seeded sampling; one or both initiate)
 	for _, swapped := range []bool{false, true} {
 		for _, relay := range []bool{false, true} {
-			s := setup{relay: relay, swapped: swapped, ids: ids, errs: 1}
+			s := setup{relay: relay, swapped: swapped, ids: ids, errs: 1, lateInit: true}
 			for is := range initiatorSets {
-				jobs = append(jobs, job{s, is, 0, 0, c.Q(500, 8000)})
+				jobs = append(jobs, job{s, is, 0, 0, c.Q(300, 8000)})
+			}
+			// every order of the (undisturbed) deliveries with one error ping per side: budgeted depth-first search
+			so := s
+			so.deliverOnly = true
+			for is := range initiatorSets {
+				jobs = append(jobs, job{so, is, 0, c.Q(1500, 40000), c.Q(1500, 20000)})
 			}
 		}
 	}
